@@ -748,7 +748,7 @@ def dyn_case(draw, size="mixed"):
         ppp = draw(C.pick([np.zeros(d, dtype=int), np.ones(d, dtype=int)]))
     seed = draw(st.integers(0, 2 ** 32 - 1))
     rng = np.random.default_rng(seed)
-    critical = mode == "x" and bool(ppp.all()) and cell["kind"] == "tri" and C.chance(draw, 4)
+    critical = mode == "x" and bool(ppp.all()) and cell["kind"] == "tri" and C.chance(draw, 2)
     if critical:
         # every particle makes the SAME step, short in every Cartesian component but beyond the half cell along the
         # first cell vector of a strongly tilted cell (EXTENSION_3 class 4: the whole batch is in the critical region)
